@@ -414,6 +414,21 @@ class HttpImpl:
             else:
                 et = it["props"].get(DAV + "getetag")
                 plus.append((name, (self.sym_etag(et[1].text) or "?").strip('"') if et else "?none"))
+        # the set of changed and removed members does not depend on which properties the client asks for
+        for props in ("<D:getcontenttype/>", "<D:resourcetype/><D:displayname/>", ""):
+            body2 = ('<?xml version="1.0"?><D:sync-collection xmlns:D="DAV:">%s<D:sync-level>1</D:sync-level>'
+                     '<D:prop>%s</D:prop></D:sync-collection>' % (tokxml, props)).encode("utf-8")
+            r2 = self.srv.request("REPORT", base, {"Depth": "1", "Content-Type": "text/xml"}, body2)
+            ms2 = parse_multistatus(r2.body) if r2.status == 207 else None
+            if not ms2:
+                self.notes.append("C07:sync-report-refused-for-another-property-list %r: status %d" % (props, r2.status))
+                continue
+            names2 = sorted((urllib.parse.unquote(urllib.parse.urlsplit(it["href"] or "").path)[len(basep):],
+                             it["status"] == "404") for it in ms2[0])
+            names1 = sorted([(n, False) for n, _e in plus] + [(n, True) for n in minus])
+            if names2 != names1:
+                self.notes.append("C07:sync-report-depends-on-the-requested-properties %s: asking for %r gives %r, asking "
+                                  "for getetag gives %r" % (cpath, props, names2, names1))
         plus.sort(key=lambda p: p[0].encode("utf-8"))
         minus.sort(key=lambda n: n.encode("utf-8"))
         qq = lambda x: urllib.parse.quote(x, safe="")
@@ -582,6 +597,7 @@ def execute_http(frontend, prefix, template, toks, attrs, audit_paths, colls=(CA
     lines = list(impl.setup_lines())
     hist = {}
     propvals = {}
+    home_tags = {}
     known_colls = list(colls)
     issued = {}
 
@@ -653,6 +669,15 @@ def execute_http(frontend, prefix, template, toks, attrs, audit_paths, colls=(CA
                             impl.notes.append("C02:view-query-disagrees-with-propfind %r vs %r" % (bad, ref))
                     elif d != ref:
                         impl.notes.append("C02:view-%s-disagrees-with-propfind %r vs %r" % (vname, d, ref))
+        if check_tags:
+            # the collections that CONTAIN the calendars and address books are collections with a tag of their
+            # own; nothing in these histories writes to them, so their tags never move
+            for hs in ("/user/calendars", "/user/contacts"):
+                _o, sha_ = impl.tags(hs)
+                if sha_ is not None and home_tags.setdefault(hs, sha_) != sha_:
+                    impl.notes.append("C08:tag-changed-by-a-write-to-another-collection %s: %s then %s after `%s`" % (
+                        hs, home_tags[hs], sha_, (lines[-1] if lines else "")[:120]))
+                    home_tags[hs] = sha_
         for cp in known_colls:
             lines.append("LIST %s | %s" % (enc(cp), impl.list(cp)))
             if check_tags:
@@ -873,6 +898,11 @@ def gen_http_template(rng, toks, length, profile="mixed"):
         # probe: a collection that becomes empty again has the tag it had when it was empty
         ops += [("MKCOL", "/user/probe"), ("PUT", "/user/probe/p.ics", "text/calendar", icals[0], "none", "none"),
                 ("GET", "/user/probe/p.ics", "none"), ("DELETE", "/user/probe/p.ics", "none")]
+    if profile == "sync" and len(icals) >= 2:
+        # every history starts with one member created, changed and removed, a report after each step
+        ops += [("PUT", CAL + "/a.ics", "text/calendar", icals[0], "none", "none"), ("SYNC", CAL, "all"),
+                ("PUT", CAL + "/a.ics", "text/calendar", icals[1], "none", "none"), ("SYNC", CAL, "all"),
+                ("DELETE", CAL + "/a.ics", "none"), ("SYNC", CAL, "all")]
     odd = [CAL + "/.git/z.ics", CAL + "/x/../a.ics", "/user/calendars/./calendar/b.ics", CAL + "//a.ics"]
     for _ in range(length):
         if profile == "git" and rng.random() < 0.1:
@@ -910,6 +940,8 @@ def gen_http_template(rng, toks, length, profile="mixed"):
             im, inm = sel(), "none"
             if rng.random() < 0.3:
                 im, inm = "none", sel()
+            elif profile == "cond" and rng.random() < 0.3:
+                im, inm = sel(), sel()          # both headers: both conditions have to hold
             if "/.git/" in path:
                 # the WSGI front end answers every .git path itself (git smart/dumb HTTP)
                 im, inm = "none", "none"
